@@ -1335,6 +1335,7 @@ var c03IllKinds = map[string][]string{
 	"move":      {"dynamic-set", "zero-seq", "empty-set"},
 	"namespace": {"delim"},
 	"expunge":   {"zero-seq"},
+	"append":    {"zero-uid"},
 }
 
 // c03Case generates one case from a sub-seed.
@@ -1369,7 +1370,12 @@ func c03Case(r *rng) caseLine {
 	case "append":
 		req, sup = vL(), vNil()
 		if r.chance(5, 6) {
-			sup = vL(g.pU32(), g.pU32())
+			uid := pick(r, []uint64{1, 2, 42, 4294967295})
+			if g.ill == "zero-uid" {
+				g.injectd = true
+				uid = 0
+			}
+			sup = vL(g.pU32(), vN(uid))
 		}
 	case "copy":
 		req, sup = vL(), g.copyData()
@@ -1415,7 +1421,7 @@ func c03Corpus() []caseLine {
 }
 
 func genC03(e *emitter, tier string, seed uint64) {
-	n := 4000
+	n := 3000
 	switch tier {
 	case "thorough":
 		n = 150000
